@@ -17,6 +17,38 @@ TIMEOUT_MS = 300
 SLACK_MS = 350
 
 
+GEN = {}
+
+
+def upstream_oracle(g, seen):
+    """Independent reading of what the upstream must receive: the request that came in (same method, target, version,
+    header fields with the order of same-named fields kept, body) plus one X-Forwarded-For field naming the client's
+    origin address.  -> None or a description of the difference"""
+    den = G.denote_request(g)
+    head, sep, body = seen.partition(b'\r\n\r\n')
+    if not sep:
+        return 'no blank line in what the upstream received'
+    ls = head.split(b'\r\n')
+    parts = ls[0].split(b' ')
+    want_target = den['uri'] + (b'?' + den['q'] if den['q'] else b'')
+    if len(parts) != 3 or parts[0] != G.METHODS[den['m']].encode() or parts[1] != want_target or parts[2] != den['v']:
+        return 'request line %r, expected %r' % (ls[0][:80], b' '.join([G.METHODS[den['m']].encode(), want_target, den['v']])[:80])
+    got = []
+    for ln in ls[1:]:
+        k, c, v = ln.partition(b': ')
+        if not c:
+            return 'bad header line %r' % ln[:60]
+        got.append((k.lower(), v))
+    want = list(den['h']) + [(b'x-forwarded-for', den['origin'].encode())]
+    names = set(k for k, _ in want) | set(k for k, _ in got)
+    for nme in names:
+        if [v for k, v in want if k == nme] != [v for k, v in got if k == nme]:
+            return 'header %r: upstream saw %r, expected %r' % (nme, [v for k, v in got if k == nme][:3], [v for k, v in want if k == nme][:3])
+    if body != (den['c'] or b''):
+        return 'body of %d bytes, expected %d' % (len(body), len(den['c'] or b''))
+    return None
+
+
 def run(ctx):
     rng = ctx.rng
     thorough = ctx.tier == 'thorough'
@@ -30,7 +62,10 @@ def run(ctx):
         reqs = []
         for _ in range(40 if thorough else 8 * ctx.scale):
             g = G.rand_request(rng, body_max=60, nheaders_max=6)
-            reqs.append(G.render_request(g))
+            raw = G.render_request(g)
+            reqs.append(raw)
+            g['peer_ip'] = '10.1.2.3'          # the address the harness parses the request under
+            GEN[raw] = g
         reqs.append(b'GET /api/v1/items?x=1 HTTP/1.1\r\nHost: a\r\nX-Forwarded-For: 9.9.9.9\r\n\r\n')
         def add(kind, beh, req, info=None):
             lines.append('proxy %d %s %s' % (TIMEOUT_MS, beh, hx(req)))
@@ -151,6 +186,16 @@ def run(ctx):
                 ctx.report(case, 'elapsed=%s' % elapsed, 'within %d ms' % (TIMEOUT_MS + SLACK_MS), cls='proxy-slow', failing_input=True,
                            what='proxy_request exceeded its timeout')
                 continue
+        # what the upstream received, read independently of the model (when it received a whole request)
+        if line.startswith('proxy ') and up_i:
+            g_ = GEN.get(bytes.fromhex(line.split(' ')[3][1:]))
+            if g_ is not None:
+                diff = upstream_oracle(g_, bytes.fromhex(up_i))
+                ctx.count('upstream bytes read independently')
+                if diff:
+                    ctx.report(case, up_i[:400], 'the received request plus X-Forwarded-For', cls='proxy-upstream-request', failing_input=True,
+                               what='the upstream did not receive the request that came in: ' + diff)
+                    continue
         if resp_i != resp_m or up_i != up_m:
             ctx.report(case, (resp_i + ' upstream=' + up_i)[:400], (resp_m + ' upstream=' + up_m)[:400], cls='proxy-mismatch',
                        failing_input=False, what='implementation and model differ')
